@@ -132,3 +132,47 @@ func H_C01_flat_dim() {
 	_, e3 := idx.NewSearch().WithK(1).Execute()
 	vAssert(e3 != nil, "no-query-is-an-error")
 }
+
+func init() { vHarnesses["H_C01_flat_many"] = H_C01_flat_many }
+
+// more live vectors than the builder's default k (10): 12 concrete vectors (one removed),
+// concrete query, k over all of int, symbolic threshold, optional id restriction —
+// "all eligible ones if k <= 0" is only observable above the default
+func H_C01_flat_many() {
+	kind := vMetrics[vChoose("metric", 3)]
+	idx, err := NewFlatIndex(2, kind)
+	vAssert(err == nil, "constructor")
+	m := vNewRef(kind)
+	for i := 0; i < 12; i++ {
+		vAddBoth(idx, m, uint32(40-3*i), []float32{float32(i%5) + 0.5, float32(i/3) - 1.25})
+	}
+	vRemoveBoth(idx, m, 40-3*4)
+	if vChoose("flush", 2) == 1 {
+		vFlushBoth(idx, m)
+	}
+	q := []float32{1.75, 0.5}
+	k := vInt("k")
+	th := vF32("th")
+	vAssume(th >= 0)
+	var filt []uint32
+	if vChoose("filt", 2) == 1 {
+		for i := 0; i < 12; i++ {
+			if i != 2 {
+				filt = append(filt, uint32(40-3*i))
+			}
+		}
+	}
+	s := idx.NewSearch().WithQuery(q).WithThreshold(th).WithDocumentIDs(filt...)
+	if vChoose("call_with_k", 2) == 1 {
+		s = s.WithK(k)
+	} else {
+		k = 10 // the documented default
+	}
+	res, serr := s.Execute()
+	vAssert(serr == nil, "search-ok")
+	pq, _ := m.dist.Preprocess(vCopy(q))
+	vCheckExact(res, m.eligible(pq, th, filt), k)
+	if len(res) > 10 {
+		vCover("more-than-default-k")
+	}
+}
